@@ -69,3 +69,22 @@ Example C16_source_nonvacuous :
   GenLoop.gen_serialize_u16 2 2 (258 :: 1 :: 65535 :: 0 :: nil) (9 :: nil) = Some (9 :: 2 :: 1 :: 1 :: 0 :: 255 :: 255 :: 0 :: 0 :: nil) /\
   GenLoop.gen_deserialize_u16 2 2 (0 :: 0 :: 0 :: 0 :: nil) (2 :: 1 :: 1 :: 0 :: 255 :: 255 :: 0 :: 0 :: 77 :: nil) = Some (258 :: 1 :: 65535 :: 0 :: nil, 77 :: nil, true).
 Proof. vm_compute. repeat split. Qed.
+Print Assumptions C16_source_nonvacuous.
+
+(* operator<<(std::ostream&, poly const&) OF THE SOURCE (include/nfl/core.hpp), translated on every run by tools/cxxtext2coq.py into gen/GenText.v (the
+   bool flag, the suffix chosen by the typeid comparisons of the instantiation, the chains of stream insertions, the range-for over the stored
+   words, each UNSIGNED word printed in decimal): for the three limb types it appends exactly Text.print with the suffix "U", "UL", "ULL" -- all
+   stored words in order, each with the limb-width suffix -- and therefore parses back to the same words (C16_text_parses_back). *)
+From NTT Require TextSrc.
+From NTT.gen Require GenText.
+Theorem C16_source_print : (forall data, GenText.gen_print_u16 data = Text.print (85 :: nil)%N data) /\ (forall data, GenText.gen_print_u32 data = Text.print (85 :: 76 :: nil)%N data) /\
+  (forall data, GenText.gen_print_u64 data = Text.print (85 :: 76 :: 76 :: nil)%N data).
+Proof. exact TextSrc.source_print. Qed.
+Print Assumptions C16_source_print.
+Theorem C16_source_print_parses_back : forall ws, ws <> nil ->
+  Text.parse (85 :: nil)%N (GenText.gen_print_u16 ws) = Some ws /\ Text.parse (85 :: 76 :: nil)%N (GenText.gen_print_u32 ws) = Some ws /\ Text.parse (85 :: 76 :: 76 :: nil)%N (GenText.gen_print_u64 ws) = Some ws.
+Proof. exact TextSrc.source_print_parses_back. Qed.
+Print Assumptions C16_source_print_parses_back.
+Example C16_source_print_example : GenText.gen_print_u32 (0 :: 42 :: 1073479681 :: nil)%N =
+  (123 :: 32 :: 48 :: 85 :: 76 :: 44 :: 32 :: 52 :: 50 :: 85 :: 76 :: 44 :: 32 :: 49 :: 48 :: 55 :: 51 :: 52 :: 55 :: 57 :: 54 :: 56 :: 49 :: 85 :: 76 :: 32 :: 125 :: nil)%N.
+Proof. exact TextSrc.source_print_example. Qed.
